@@ -1,12 +1,21 @@
 #!/usr/bin/env python3
 """usage: tools_split_test_hunks.py <patch> <out_code.patch> <out_tests.patch>
-Splits a unified diff into hunks that add test code (a '+' line with #[test] / #[cfg(test)] / fn test_) and the rest."""
+Splits a unified diff into hunks that add test code (a '+' line with #[test] / #[cfg(test)] / fn test_) and the rest.
+Handles patches with or without 'diff --git' headers."""
 import re,sys
 src,oc,ot=sys.argv[1:4]
 t=open(src).read()
-files=re.split(r'(?m)^(?=diff --git )',t)
+# split into per-file sections: a section starts at 'diff --git' or at a '--- a/' line not preceded by a diff header
+lines=t.splitlines(keepends=True)
+secs=[];cur=[]
+for i,l in enumerate(lines):
+    start = l.startswith('diff --git ') or (l.startswith('--- ') and i+1<len(lines) and lines[i+1].startswith('+++ ') and not any(x.startswith('diff --git ') for x in cur[-4:]) )
+    if start and cur and any(x.startswith('@@ ') for x in cur):
+        secs.append(''.join(cur)); cur=[]
+    cur.append(l)
+if cur: secs.append(''.join(cur))
 code=[];tests=[]
-for f in files:
+for f in secs:
     if not f.strip(): continue
     head,*hunks=re.split(r'(?m)^(?=@@ )',f)
     c=[h for h in hunks if not re.search(r'(?m)^\+.*(#\[test\]|#\[cfg\(test\)\]|fn test_)',h)]
@@ -14,4 +23,4 @@ for f in files:
     if c: code.append(head+''.join(c))
     if s: tests.append(head+''.join(s))
 open(oc,'w').write(''.join(code)); open(ot,'w').write(''.join(tests))
-print('code hunks files',len(code),'test hunk files',len(tests))
+print('code files',len(code),'test files',len(tests))
